@@ -37,6 +37,12 @@ pub fn generate(g: &mut Gen) {
     }
     g.push(format!("rnd.generate 7 {} {} 3", hx(0.5), hx(0.5)), Tol::Exact, "generate/min=max", true);
     // empty and singleton shuffles
+    // randomly initialised tensors: every rank with pairwise different extents, and the library's ranges
+    for sh in ["S 7", "S 1", "D 2 5", "D 5 2", "D 1 3", "T 2 3 5", "T 5 3 2", "T 1 2 4", "T 3 1 1", "Q 2 3 4 5", "Q 5 4 3 2", "Q 1 2 1 3"] {
+        for (lo, hi) in [(-1.0f32, 1.0f32), (0.0, 1.0), (-0.5, 0.25)] {
+            g.push(format!("rnd.tensor {} {} {}", sh, hx(lo), hx(hi)), Tol::Exact, "random-tensor", true);
+        }
+    }
     g.push("rnd.shuffle 99 0".to_string(), Tol::Exact, "shuffle/empty", true);
     g.push("rnd.shuffle 99 1 7".to_string(), Tol::Exact, "shuffle/singleton", true);
 
